@@ -277,6 +277,7 @@ func GenLogoutCase(r *rand.Rand, w *World, isResp bool) (*LogoutCase, error) {
 
 func runC10(c *mon.Ctx) {
 	w := NewWorld(BaseTime(c.Seed))
+	pool := &SPPool{}
 	n := c.N(4000, 200000)
 	for k := 0; k < n; k++ {
 		cs := c.Begin("logout", k)
@@ -301,6 +302,9 @@ func runC10(c *mon.Ctx) {
 			level = pick(r, []int{-1, 0, 9})
 		}
 		sp, _, _ := SPFor(r, w, lc.Signer)
+		if k%2 == 1 {
+			sp, _, _ = pool.Get(w.Now, lc.Signer)
+		}
 		sp.SkipSignatureValidation = skip
 		sp.IdentityProviderIssuer = cfgIssuer
 		cs.Desc("%s skip=%v cfgIssuer=%q level=%d", lc.Desc, skip, cfgIssuer, level)
